@@ -1226,10 +1226,14 @@ where
         // or as a pixel data fragment (false)
         let mut first = true;
 
+        // whether the current item has produced a value token
+        let mut item_has_value = false;
+
         while let Some(token) = dataset.advance() {
             let token = token.context(ReadTokenSnafu)?;
             match token {
                 LazyDataToken::LazyItemValue { decoder, len } => {
+                    item_has_value = true;
                     if first {
                         let mut table = Vec::new();
                         decoder
@@ -1249,9 +1253,17 @@ where
                     // are seen as compressed fragments
                     if offset_table.is_none() {
                         offset_table = Some(Vec::new())
+                    } else if !item_has_value {
+                        // a zero-length item after the offset table
+                        // is an empty fragment
+                        fragments.push(Vec::new());
                     }
+                    // an empty first item is an empty offset table
+                    first = false;
                 }
-                LazyDataToken::ItemStart { len: _ } => { /* no-op */ }
+                LazyDataToken::ItemStart { len: _ } => {
+                    item_has_value = false;
+                }
                 LazyDataToken::SequenceEnd => {
                     // end of pixel data
                     break;
